@@ -103,6 +103,8 @@ class C01(InvProp):
             scn['pattern_objects'] = True     # patterns added as Pattern objects that carry time options of their own
         if rng.chance(0.2):
             gen.add_source_tcv(rng, scn)      # a TCV attached directly to a tank or reservoir
+        if rng.chance(0.2):
+            gen.add_valve_bypass(rng, scn)    # a valve with a bypass pipe that a time control closes
         return scn
 
     def oracle(self, scn, out, c):
